@@ -1252,6 +1252,8 @@ tp_threads_create(tp_p tp, const int skip_first) {
 		tpt = &tp->threads[i];
 		if (NULL == tpt->tp)
 			continue;
+		if (TP_THREAD_STATE_STOP != tpt->state)
+			continue; /* Already started / attached. */
 		tpt->state = TP_THREAD_STATE_STARTING;
 		if (0 == pthread_create_eagain(&tpt->pt_id, NULL,
 		    tp_thread_proc, tpt)) {
